@@ -177,3 +177,13 @@ CLAIMED["C06"] = (
  "Does not decide byte-identical payloads for all fragmentations x segmentations (runtime values).",
  COMMON_NOTE,
  "DESIGN.md section 5 C06")
+
+CLAIMED["C12"] = (
+ "path counting of the datagram syscalls, value-flow (dependence) of count/sender/destination, success-edge pairing of cached settings with their kernel calls, setter/getter and socket-option ABI table agreement, who-calls dispatch",
+ "Partial static necessary-condition analysis. Decides that each datagram read/write issues exactly one recvfrom/sendto per call outside loops with the caller's slice and address and reports that call's count and sender, "
+ "that the multicast read handler uses the reactor's current buffer (designated by AsyncRead/SetAsyncReadBuffer), that every cached UDPPeer setting is stored on the success edge of the corresponding kernel call with the value "
+ "passed/returned and that constructor defaults match ip(7) or are read back, that each net/ipv4 function uses the socket option of its name at IPPROTO_IP (IP_MULTICAST_ALL=49) and fills the request from like-named arguments, "
+ "that set/get mappings compose to the identity, and that UDPPeer dispatches join/leave/block/unblock to the right function. GetMulticastLoop's inverted decode (D19) is a known finding pinned by a baseline test. "
+ "Exactly-once completion of the datagram operations is decided under C01. Does not decide datagram boundaries, truncation or group/source filtering (kernel).",
+ COMMON_NOTE,
+ "DESIGN.md section 5 C12")
